@@ -5,3 +5,10 @@ package eng
 import "os"
 
 func osChdir(dir string) error { return os.Chdir(dir) }
+
+func trunc(s string, n int) string {
+	if len(s) > n {
+		return s[:n] + "…"
+	}
+	return s
+}
